@@ -18,6 +18,12 @@ correspondence : (A) the kernels classical_strength_of_connection_abs/min, symme
                  energyFull / evolFull (extension E28): the measure / Atilde / strength values observed inside the call
                  and the returned matrix, to a conditioning-scaled tolerance; the spectral-radius estimate is recorded
                  from the real call.
+                 (F) extension E40, models of Model/ExtC14XBlock.lean over a scalar type with a modulus: complex CSR data with
+                 irrational moduli (kernels and public classical / symmetric), real and complex BSR data (classical block=True
+                 with abs / min / fro and the 1e-16 drop; block=False from the BSR arrays through the model of A.tocsr(),
+                 whose arrays are compared with SciPy's exactly, and amalgamate; symmetric with irrational block norms), and
+                 the whole energy measure on complex CSR and on real / complex BSR input: pattern exact outside the
+                 near-threshold entries named by the exact oracle, values to 1e-13 (energy: conditioning-scaled tolerance).
 search         : (C) every public measure judged by an independent exact (Fraction) oracle of the property:
                  contract (nodal shape, pattern, [0,1], row maximum 1, diagonal kept), the classical / symmetric
                  rule entry by entry, monotonicity over a theta grid, theta = 0.
@@ -38,7 +44,9 @@ META = {
             'and (kernels only) duplicated entries; theta from {0,1/8,1/4,1/2,3/4,1} (exact ties are frequent) plus non-dyadic '
             'thetas in the search; every family also badly scaled: global factor 2^-66, 2^-56, 2^-27, 2^27, 2^66 (and, in the search, '
             '1e-20, 1e-17, 1e-8, 1e8, 1e20) and/or a factor 2^-80..2^80 per row (all values remain normal doubles); both norms (+fro), block on/off, float64/float32/complex128; parameter grids of the evolution, '
-            'energy, distance, algebraic-distance and affinity measures; non-trivial = the matrix has an off-diagonal '
+            'energy, distance, algebraic-distance and affinity measures; part F: complex CSR rows with general Gaussian-integer x power-of-two values '
+            '(irrational moduli), complex BSR blocks multiplied entry-wise by Gaussian integers, thetas incl. 0.1, 0.3, 0.9, the _sym_matrix '
+            'families (Hermitian, non-Hermitian, non-symmetric pattern) as complex CSR / real BSR / complex BSR for the energy measure; non-trivial = the matrix has an off-diagonal '
             'stored non-zero; distinct = distinct (operation, input, parameters)',
     'search_only': ['energy_based_strength_of_connection on real canonical CSR input is modelled as a whole (energyFull: Jacobi approximate inverse, '
                     'energy inner products, val > -0.01 rule, drop rule, + I, scaling; theorems energy_full_contract / energy_full_rule hold for '
@@ -47,7 +55,8 @@ META = {
                     'the NullDim == 1 strength rule, filter, symmetrisation, scaling; evolution_full_contract); both are compared with the real '
                     'functions stage by stage on every run (part E), the only input taken from the real call being the spectral-radius estimate. '
                     'SEARCH ONLY remain: approximate_spectral_radius itself; evolution with NullDim > 1 (evolution_strength_helper, constrained '
-                    'minimisation), k = 1 or not a power of two, epsilon = inf, BSR or complex input; energy with BSR or complex input: there '
+                    'minimisation), k = 1 or not a power of two, epsilon = inf, BSR or complex input (the energy measure on complex CSR and on real / '
+                    'complex BSR input is modelled as a whole since extension E40: energyFullC, energyFullBsr, energyFullBsrC, part F): there '
                     '"pattern contained in the input, diagonal kept" is checked on the outputs of the real code (spec oracle), '
                     'and for CSR input with finite power-of-two epsilon / dyadic theta the part of the function after the strength values is '
                     'modelled (evolution_tail_contract, energy_tail_contract) and compared with the real result on the values observed at '
@@ -56,10 +65,14 @@ META = {
                     'algebraic_distance / affinity_distance: everything after the distance function is modelled (distance_common_contract), '
                     'the relaxation vectors and the distance formula are inputs of the model; distance_strength_of_connection: modelled '
                     'completely for rational distances (distance_strength_contract)',
-                    'complex BSR input, float32 public calls, non-dyadic theta, symmetric BSR with irrational block norms: rule oracle only '
-                    '(near-threshold decisions are skipped and counted in near_threshold_skipped)',
-                    'conversion BSR -> CSR for block=False and the BSR container handling are scipy code, not modelled (the model '
-                    'starts from the converted CSR arrays)'],
+                    'float32 public calls: rule oracle only (near-threshold decisions are skipped and counted in near_threshold_skipped). '
+                    'Complex BSR input, complex CSR input with irrational moduli, non-dyadic theta on these, and symmetric BSR with irrational '
+                    'block norms are modelled since extension E40 (classicalBlock / classicalNoBlock / symmetricBsr / cclassical / csymmetric over a '
+                    'scalar type with a modulus; theorems classical_block_rule, classical_block_contract, classical_noblock_rule, symmetric_bsr_rule, '
+                    'complex_classical_contract, complex_symmetric_contract) and compared with the real functions in part F',
+                    'the BSR container handling (canonical-format flags, index dtype) is scipy code, not modelled; the conversion BSR -> CSR used for '
+                    'block=False and by the energy measure is modelled (Spmm.bsrToCsr, theorems bsr_tocsr_row / bsr_tocsr_entries / bsr_tocsr_meaning) '
+                    'and its arrays are compared with A.tocsr() exactly in part F; the parts A / B models still start from the converted CSR arrays'],
     'partial': [],
     'assumptions': ['part E (whole energy / evolution measures): the spectral-radius estimate is recorded from the real call through a pass-through '
                     'wrapper of pyamg.strength.approximate_spectral_radius (omega = 1.0/rho resp. c = 1.0/rho are handed to the model as exact '
@@ -90,7 +103,19 @@ META = {
                     'decimal global factors (1e-20, ...) make the data non-dyadic: used in the search only, ties within 1e-9 relative are then skipped',
                     'explicitly stored zeros are not part of "the pattern" (of the input or of the output); duplicate entries: '
                     'kernels only (the entry-wise rule is not defined for them)',
-                    'complex moduli are exact (Gaussian integers with integer modulus) in the correspondence; the model rejects other inputs',
+                    'complex moduli are exact (Gaussian integers with integer modulus) in the correspondence parts A / B; those models reject other inputs. '
+                    'Part F (extension E40) takes arbitrary complex data: the models are parametric in the square-root function (every theorem holds for '
+                    'every admissible one, SqrtLike), the driver uses sqrtApprox 100 (relative error 2^-100, exact on squares); binary64 moduli carry '
+                    'rounding errors, so decisions within 1e-9 relative of a threshold (named by the exact Fraction oracle) may differ between model '
+                    'and code: such entries are not compared and counted in near_threshold_skipped; values are compared to 1e-13 (1e-8 in rows with a kept '
+                    'near-threshold entry). Complex BSR norm="fro": the reduced values reach the abs kernel as complex numbers x + 0i and mynorm forms '
+                    'sqrt(x*x) = x, exact as long as x*x is a normal double (true for the generated magnitudes)',
+                    'part F energy measure (complex CSR, real / complex BSR): as part E (spectral radius recorded from the real call, measure observed at the '
+                    'inner classical call, tolerance 4e-14 * kappa, near-threshold skips); in addition instances are skipped (model reply "undefined") when an '
+                    'argument of a complex square root is a negative real number in exact arithmetic while the other one is not a positive real number (in '
+                    'binary64 the sign of the rounding noise in the imaginary part selects the branch), and when an exact zero of the model meets a '
+                    'value below 1e-9 of the code (rounding noise of the complex quotient z/z) or the value 0.01 (decision val > -0.01); for BSR input the '
+                    'returned nodal matrix is compared as a set of entries (the code lists nodal columns in order of first appearance, the model sorted)',
                     'TypeError of algebraic_distance / affinity_distance on complex input and of norm="min" on complex input is an '
                     'explicit input rejection (counted as a feature), not a violation'],
 }
@@ -1707,6 +1732,402 @@ def run_part_e(ctx, count):
     part_e_finish(ctx, items, outs)
 
 
+# ------------------------------------------------------------------------------------------------
+# part F (extension E40): BSR input and complex input vs the Lean models of Model/ExtC14XBlock.lean (ops ext_c14x_*):
+#   (F1) complex CSR data with general (irrational) moduli: the kernels and the public classical / symmetric functions;
+#   (F2) real and complex BSR data: classical block=True (abs / min / fro + the 1e-16 drop), block=False starting from the BSR
+#        arrays (model of A.tocsr(), compared with SciPy's arrays exactly, then the scalar measure and amalgamate), symmetric
+#        with irrational block norms;
+#   (F3) the whole energy measure on complex CSR, real BSR and complex BSR input.
+# The models use a square root of relative accuracy 2^-100 (exact on squares); patterns are compared outside the
+# near-threshold entries named by the exact oracle (relative 1e-9 on the compared quantities), values to 1e-13.
+# ------------------------------------------------------------------------------------------------
+
+GAUSS_P = [0.25, 0.5, 1.0, 2.0]
+
+import sys as _sys
+if hasattr(_sys, 'set_int_max_str_digits'):
+    _sys.set_int_max_str_digits(0)      # the exact complex energy model prints rationals with more than 4300 digits
+
+
+def _bsrhdr(A):
+    d = np.asarray(A.data).ravel()
+    return (f'{A.shape[0]} {A.blocksize[0]} {enc_ints(A.indptr)} {enc_ints(A.indices)} '
+            f'{(enc_crats if np.iscomplexobj(d) else enc_rats)(d)}')
+
+
+def _gauss(rng):
+    """a Gaussian integer times a power of two: the modulus is irrational in general"""
+    while True:
+        a, b = int(rng.integers(-6, 7)), int(rng.integers(-6, 7))
+        if a or b:
+            return complex(a, b) * float(GAUSS_P[rng.integers(len(GAUSS_P))])
+
+
+def gen_crows(rng, n):
+    rows, feats = gen_rows(rng, n, True)
+    rows = [[(j, v if (v == 0 or rng.random() < 0.25) else _gauss(rng)) for j, v in r] for r in rows]
+    return rows, set(feats) | {'irrational_moduli'}
+
+
+def _f_expected_classical(A, th, norm, block):
+    """what the code is expected to return (maximum floored at zero, 1e-16 drop applied) and the undecided entries; complex
+    moduli are never exact in binary64, so complex data always get the near-threshold guard"""
+    dex = _data_short(A) and not _cplx(A)
+    kn = 'min' if norm == 'min' else 'abs'
+    if A.format == 'bsr' and block:
+        return classical_expected(exact_rows(block_reduce(A, norm, drop=True)), th, kn, False, dex)
+    if A.format == 'bsr':
+        bs = A.blocksize[0]
+        e1, f1 = classical_expected(exact_rows(gen.int32csr(A.tocsr())), th, kn, False, dex)
+        N = A.shape[0] // bs
+        exp, free = [set() for _ in range(N)], [set() for _ in range(N)]
+        for i in range(A.shape[0]):
+            exp[i // bs] |= {j // bs for j in e1[i]}
+            free[i // bs] |= {j // bs for j in f1[i]}
+        if bs == 1:
+            return e1, f1
+        return exp, free
+    return classical_expected(exact_rows(A), th, kn, False, dex)
+
+
+def _cmp_free(model, S, free, tol=1e-13):
+    """model reply 'sp;sj;sx' vs the returned matrix: 'ok' | 'near' (they differ on near-threshold entries only) | 'bad'"""
+    try:
+        M = _dec_rows(model)
+        nrow = len(model.split(';')[0].split(',')) - 1
+    except Exception:
+        return 'bad'
+    Sd = sp.csr_array(S)
+    if Sd.shape[0] != nrow or np.iscomplexobj(Sd.data) or not np.isfinite(Sd.data).all():
+        return 'bad'
+    impl = _arr_dict(Sd.indptr, Sd.indices, Sd.data)
+    if len(impl) != Sd.nnz:
+        return 'bad'            # duplicates in the result
+    verdict = 'ok'
+    for i in range(nrow):
+        km = {j for (r, j) in M if r == i}
+        ki = {j for (r, j) in impl if r == i}
+        if km != ki:
+            if (km ^ ki) - free[i]:
+                return 'bad'
+            verdict = 'near'
+            continue
+        if free[i] & km:
+            # a near-threshold entry that both sides keep can still be the row maximum on one side only when theta = 1
+            tl = 1e-8
+        else:
+            tl = tol
+        for j in km:
+            if abs(float(M[(i, j)]) - impl[(i, j)]) > tl * max(1.0, abs(float(M[(i, j)]))):
+                return 'bad'
+    return verdict
+
+
+def _cmp_kernel_free(model, impl, free):
+    """raw kernel outputs (protocol strings with the complex values copied): rows must agree as sequences of (column, value)
+    after removing near-threshold columns"""
+    if model == impl:
+        return 'ok'
+    try:
+        a = [t.split(';') for t in (model, impl)]
+        rows = []
+        for sp_, sj_, sx_ in a:
+            Sp = [int(v) for v in sp_.split(',')]
+            Sj = [] if sj_ == '-' else [int(v) for v in sj_.split(',')]
+            Sx = [] if sx_ == '-' else sx_.split(',')
+            if len(Sj) != len(Sx) or Sp[-1] != len(Sj):
+                return 'bad'
+            rows.append([[(Sj[k], Sx[k]) for k in range(Sp[i], Sp[i + 1])] for i in range(len(Sp) - 1)])
+    except Exception:
+        return 'bad'
+    if len(rows[0]) != len(rows[1]):
+        return 'bad'
+    for i, (rm, ri) in enumerate(zip(*rows)):
+        if [e for e in rm if e[0] not in free[i]] != [e for e in ri if e[0] not in free[i]]:
+            return 'bad'
+    return 'near'
+
+
+def part_f(ctx, count):
+    from pyamg import amg_core
+    rng = ctx.np_rng
+    tiny = TINY['float64']
+    items = []
+    for t in range(count):
+        thetas = sorted(set([0.0] + [float(x) for x in rng.choice(THETAS + [0.1, 0.3, 0.9], size=3)]))
+        if t % 3 == 0:
+            # (F1) complex CSR with irrational moduli
+            n = int(rng.integers(1, 9))
+            rows, feats = gen_crows(rng, n)
+            A = rows_to_csr(rows, complex, rng, unsorted=(t % 2 == 0))
+            A, stag = rescale(rng, A, exact=True)
+            ctx.feat('F:' + stag)
+            Ak = A
+            if t % 9 == 0 and A.nnz:            # duplicated entries: kernels only
+                k_ = int(rng.integers(A.nnz))
+                i_ = int(np.searchsorted(A.indptr, k_, side='right') - 1)
+                ip = A.indptr.copy()
+                ip[i_ + 1:] += 1
+                Ak = gen.csr_from_arrays(n, ip, np.insert(A.indices, k_, A.indices[k_]), np.insert(A.data, k_, A.data[k_]))
+                Ak.has_sorted_indices = False
+                ctx.feat('F:kernel:duplicate_entry')
+            for f in feats:
+                ctx.feat('F:' + f)
+            Ac = _canon(A)
+            nodup = Ak is A
+            rws = exact_rows(Ac)
+            for th in thetas + [float(rng.choice([2.0, 4.0]))]:
+                Ap, Aj, Ax = Ak.indptr, Ak.indices, Ak.data
+                if th <= 1:
+                    Sp, Sj, Sx = np.full_like(Ap, -7), np.full_like(Aj, -7), np.zeros_like(Ax)
+                    amg_core.classical_strength_of_connection_abs(n, np.float64(th), Ap, Aj, Ax, Sp, Sj, Sx)
+                    frc = classical_expected(rws, th, 'abs', False, False)[1]
+                    fr_ = frc if nodup else None
+                    items.append((f'ext_c14x_kcabs {enc_rat(th)} {enc_rat(tiny)} {hdr(Ak)}', ('kernel', enc_out(Sp, Sj, Sx), fr_), 'classical', Ak,
+                                  {'norm': 'abs', 'block': True}, th))
+                    S = _try(lambda: call_measure('classical', A, theta=th, norm='abs'))
+                    items.append((f'ext_c14x_cclassical {enc_rat(th)} {enc_rat(tiny)} {hdr(A)}', ('pub', S, frc), 'classical', A,
+                                  {'norm': 'abs', 'block': True}, th))
+                Sp, Sj, Sx = np.full_like(Ap, -7), np.full_like(Aj, -7), np.zeros_like(Ax)
+                amg_core.symmetric_strength_of_connection(n, np.float64(th), Ap, Aj, Ax, Sp, Sj, Sx)
+                frs = symmetric_expected(rws, th, exact_hint=False)[1]
+                items.append((f'ext_c14x_kcsym {enc_rat(th)} {hdr(Ak)}', ('kernel', enc_out(Sp, Sj, Sx), frs if nodup else None), 'symmetric', Ak, {}, th))
+                S = _try(lambda: call_measure('symmetric', A, theta=th))
+                items.append((f'ext_c14x_csym {enc_rat(th)} {enc_rat(tiny)} {hdr(A)}', ('pub', S, frs), 'symmetric', A, {}, th))
+        else:
+            # (F2) BSR, real and complex
+            cplx = t % 3 == 2
+            N = int(rng.integers(1, 6))
+            bs = int(rng.integers(1, 4))
+            A, feats = gen_bsr(rng, N, bs, cplx=cplx)
+            if cplx and rng.random() < 0.6:
+                A.data = A.data * np.array([1, 1, 1 + 1j, 2 - 1j, 1 + 2j, 3 + 1j])[rng.integers(6, size=A.data.shape)]
+                feats = set(feats) | {'irrational_moduli'}
+            A, stag = rescale(rng, A, exact=True)
+            ctx.feat('F:' + stag)
+            for f in feats:
+                ctx.feat('F:bsr:' + f)
+            kind = 'c' if cplx else 'r'
+            h = _bsrhdr(A)
+            C = A.tocsr()
+            items.append((f'ext_c14x_tocsr {kind} {h}', ('tocsr', enc_out(C.indptr, C.indices, C.data), None), 'tocsr', A, {}, None))
+            for norm in ('abs', 'min', 'fro'):
+                for block in (True, False):
+                    for th in thetas:
+                        S = _try(lambda: call_measure('classical', A, theta=th, norm=norm, block=block))
+                        fr_ = None if isinstance(S, Exception) else _f_expected_classical(A, th, norm, block)[1]
+                        items.append((f'ext_c14x_bsr_classical {kind} {norm} {int(block)} {enc_rat(th)} {enc_rat(tiny)} {enc_rat(DROP)} {h}',
+                                      ('pub', S, fr_), 'classical', A, {'norm': norm, 'block': block}, th))
+            for th in thetas + [float(rng.choice([2.0, 4.0]))]:
+                S = _try(lambda: call_measure('symmetric', A, theta=th))
+                fr_ = None if isinstance(S, Exception) else expected_symmetric(A, th)[1]
+                items.append((f'ext_c14x_bsr_sym {kind} {enc_rat(th)} {enc_rat(tiny)} {h}', ('pub', S, fr_), 'symmetric', A, {}, th))
+    return items
+
+
+def part_f_finish(ctx, items, outs):
+    for (line, (what, S, free), api, A, kw, th), o in zip(items, outs):
+        nod = A.blocksize[0] if A.format == 'bsr' else 1
+        ctx.case(key=_key(line), nontrivial=A.nnz > A.shape[0] // nod,
+                 sample={'request': line[:160], 'model': o[:80]} if ctx.evaluations % 1499 == 0 else None)
+        ctx.feat('F-model:' + ' '.join(line.split(' ')[:2 if A.format == 'bsr' else 1]))
+        case = {'line': line[:3000]} if what != 'pub' else case_of(A, api, theta=th, **kw)
+        if what == 'tocsr':
+            if o != S:
+                ctx.corr('A.tocsr() of a BSR matrix (model Spmm.bsrToCsr)', case, o, S)
+            continue
+        if what == 'kernel':
+            if free is None:        # duplicated entries: only the exact comparison is defined
+                if o != S:
+                    ctx.feat('F:kernel:duplicates_differ_skipped')
+                    ctx.near_skipped += 1
+                continue
+            v = _cmp_kernel_free(o, S, free)
+            if v == 'near':
+                ctx.near_skipped += 1
+                ctx.feat('F:near_threshold:kernel')
+            elif v == 'bad':
+                ctx.corr('kernel ' + api + ' (complex, parametric modulus)', case, o, S)
+                judge_kernel(ctx, 'symmetric' if api == 'symmetric' else 'classical_abs', A, th, S)
+                judge_family(ctx, _canon(A), api, thetas=[th], tag='after-corr-F')
+            continue
+        if isinstance(S, Exception):
+            if o == 'reject' and isinstance(S, (TypeError, ValueError)):
+                ctx.feat('F:rejects:' + type(S).__name__)
+                continue
+            ctx.corr('public ' + api, case, o, f'raised {type(S).__name__}: {S}')
+            judge_family(ctx, A if A.format == 'bsr' else _canon(A), api, norm=kw.get('norm', 'abs'), block=kw.get('block', True),
+                         thetas=[th], tag='after-corr-F')
+            continue
+        if free is None:
+            free = [set() for _ in range(sp.csr_array(S).shape[0])]
+        v = 'bad' if o == 'reject' else _cmp_free(o, S, free)
+        if v == 'near':
+            ctx.near_skipped += 1
+            ctx.feat('F:near_threshold:public')
+        elif v == 'bad':
+            ctx.corr('public ' + api + ' (E40 model)', case, o, enc_csr(sp.csr_array(S)))
+            judge_family(ctx, A if A.format == 'bsr' else _canon(A), api, norm=kw.get('norm', 'abs'), block=kw.get('block', True),
+                         thetas=THETAS, tag='after-corr-F')
+
+
+def energy_x_case(rng, t):
+    """(A, params, feats) for the energy measure on complex CSR (t % 3 == 0), real BSR, complex BSR input"""
+    sel = t % 3
+    cplx = sel != 1
+    kind = str(rng.choice(['mmat', 'mmat', 'mixed', 'nonsym', 'nspat']))
+    feats = {'Fx:energy:' + ('ccsr', 'bsr', 'cbsr')[sel], 'Fx:matrix:' + kind}
+    if sel == 0:
+        n = int(rng.integers(1, 7))
+        M = _sym_matrix(rng, n, True, kind)
+        if rng.random() < 0.3:
+            M = M * np.array([1, 1 + 1j, 2 - 1j, 1 + 0.5j])[rng.integers(4, size=M.shape)]     # non-Hermitian, irrational moduli
+            feats.add('Fx:non_hermitian')
+        if rng.random() < 0.12 and n > 1:
+            M[int(rng.integers(n)), int(rng.integers(n))] = 0
+        A = gen.int32csr(sp.csr_array(M))
+    else:
+        bs = int(rng.integers(1, 4))
+        N = int(rng.integers(1, max(2, 7 // bs + 1)))
+        M = _sym_matrix(rng, N * bs, cplx, kind)
+        A = sp.bsr_array(sp.csr_array(M), blocksize=(bs, bs))
+        A.indptr = A.indptr.astype(np.int32)
+        A.indices = A.indices.astype(np.int32)
+    if rng.random() < 0.2:
+        A.data = A.data * SCALE_P2[int(rng.integers(len(SCALE_P2)))]
+        feats.add('Fx:global_scale')
+    p = {'npseed': int(rng.integers(2 ** 31)), 'theta': float(rng.choice([0.0, 0.1, 0.25, 0.5, 1.0])), 'k': int(rng.integers(0, 4))}
+    return A, p, feats
+
+
+def part_fx(ctx, count):
+    rng = ctx.np_rng
+    items = []
+    tiny = TINY['float64']
+    for t in range(count):
+        A, p, feats = energy_x_case(rng, t)
+        for f in feats:
+            ctx.feat(f)
+        try:
+            S, rec = _call_spied('energy', A, p)
+        except Exception:
+            judge_other(ctx, A, 'energy', p)
+            continue
+        if not sp.issparse(S) or len(rec['rho']) != 1 or not np.isfinite(rec['rho'][0]) or np.iscomplexobj(rec['rho'][0]) \
+                or not rec['rho'][0] > 0:
+            ctx.feat('Fx:skipped:no_spectral_radius')
+            judge_other(ctx, A, 'energy', p)
+            continue
+        c = 1.0 / float(rec['rho'][0])
+        pre = f'{enc_rat(c)} {enc_rat(NEG001)} {enc_rat(tiny)} {enc_rat(p["theta"])} {p["k"]}'
+        if A.format == 'bsr':
+            line = f'ext_c14x_bsr_energy {"c" if _cplx(A) else "r"} {pre} {_bsrhdr(A)}'
+        else:
+            line = f'ext_c14x_cenergy {pre} {hdr(A)}'
+        items.append((line, A, p, S, rec))
+    return items
+
+
+def _energy_x_finish(ctx, line, A, p, S, rec, o):
+    """the analogue of _energy_finish for the E40 models; returns False when the correspondence is broken"""
+    case = case_of(A, 'energy', **p)
+    n = A.shape[0]
+    tag = 'Fx:energy:' + line.split(' ')[0][9:]
+    if o == 'undefined':
+        ctx.feat(tag + ':model_rejects_zero_denominator_or_branch_cut')
+        return True
+    try:
+        t_meas, t_res, t_den, t_aden = o.split('|')
+        meas, res = _dec_rows(t_meas), _dec_rows(t_res)
+        den = [float(Fr(t)) for t in dec_list(t_den)]
+        aden = [float(Fr(t)) for t in dec_list(t_aden)]
+    except Exception:
+        ctx.corr('energy model E40 (malformed reply)', case, o, enc_csr(sp.csr_array(S)))
+        return False
+    if not rec['inner']:
+        ctx.corr('energy model E40 (inner classical call not observed)', case, o, '')
+        return False
+    M0 = sp.csr_array(rec['inner'][-1][0])
+    rowlen = np.diff(M0.indptr)
+    kap = 1.0
+    for i in range(n):
+        if rowlen[i] > 0 and den[i] > 0:
+            kap = max(kap, aden[i] / den[i])
+    if kap > 1e4 or any(aden[i] > 0 and abs(den[i]) < 1e-4 * aden[i] for i in range(n)):
+        ctx.feat(tag + ':skipped:ill_conditioned_denominator')
+        ctx.near_skipped += 1
+        return True
+    d0 = np.asarray(M0.data)
+    if np.iscomplexobj(d0) and d0.size and np.abs(d0.imag).max() != 0:
+        ctx.corr('energy measure E40: the observed measure has an imaginary part', case, t_meas, enc_csr(M0))
+        return False
+    obs = _arr_dict(M0.indptr, M0.indices, d0.real)
+    tol_m = 4e-14 * kap
+    if set(meas) != set(obs):
+        ctx.corr('energy measure E40 (pattern of the argument of the inner classical call)', case, t_meas, enc_csr(M0))
+        return False
+    soft = False
+    for k_ in meas:
+        m, v = float(meas[k_]), obs[k_]
+        if not np.isfinite(v):
+            ctx.corr('energy measure E40 (non-finite observed value)', case, t_meas, enc_csr(M0))
+            return False
+        if abs(m - v) <= tol_m * max(1.0, abs(m)) and (m == 0) == (v == 0):
+            continue
+        # an exact zero on one side only: rounding noise of the complex quotient (|val| ~ 1e-16) or the decision val > -0.01
+        if min(m, v) == 0 and (max(m, v) < 1e-9 or abs(max(m, v) - 0.01) < 1e-9):
+            soft = True
+            continue
+        ctx.corr('energy measure E40 (model vs the argument of the inner classical call)', case, t_meas, enc_csr(M0))
+        return False
+    if soft:
+        ctx.near_skipped += 1
+        ctx.feat(tag + ':near_threshold:zero_on_one_side')
+        return True
+    th = p['theta']
+    rowmax = {}
+    for i in range(n):
+        offd = [float(v) for (r, j), v in meas.items() if r == i and j != i]
+        mo = max(offd + [float(TINY['float64'])])
+        rowmax[i] = max([float(v) for (r, j), v in meas.items() if r == i] + [float(TINY['float64'])])
+        if any(v != 0 and abs(v - th * mo) <= 1e-9 * mo for v in offd) and th > 0:
+            if not (th == 1.0 and sum(1 for v in offd if abs(v - mo) <= 1e-9 * mo) == 1):
+                ctx.near_skipped += 1
+                ctx.feat(tag + ':near_threshold:theta')
+                return True
+    small = min([rowmax[i] for i in range(n) if rowmax[i] > float(TINY['float64'])] or [1.0])
+    tol_r = 4 * tol_m / min(1.0, small) + 1e-14
+    if tol_r > 1e-7:
+        ctx.feat(tag + ':skipped:tiny_measure_row')
+        ctx.near_skipped += 1
+        return True
+    Sd = sp.csr_array(S)
+    impl = _arr_dict(Sd.indptr, Sd.indices, Sd.data)
+    if len(impl) != Sd.nnz or np.iscomplexobj(Sd.data):
+        ctx.corr('energy_based_strength_of_connection E40 (duplicate or complex entries in the result)', case, t_res, enc_csr(Sd))
+        return False
+    ok, worst = _cmp_dict(res, impl, tol_r)
+    if not ok:
+        ctx.corr('energy_based_strength_of_connection (E40 model vs the returned matrix)', case, t_res, enc_csr(Sd))
+        return False
+    ctx.rel_err(worst * tol_r)
+    ctx.feat(tag + ':compared')
+    return True
+
+
+def run_part_f(ctx, count, count_x):
+    items = part_f(ctx, count)
+    itx = part_fx(ctx, count_x)
+    outs = _lean(ctx, [it[0] for it in items] + [it[0] for it in itx])
+    part_f_finish(ctx, items, outs[:len(items)])
+    for (line, A, p, S, rec), o in zip(itx, outs[len(items):]):
+        ctx.case(key=_key(line), nontrivial=bool(A.nnz > A.shape[0] // (A.blocksize[0] if A.format == 'bsr' else 1)),
+                 sample={'api': 'E40:energy', 'fmt': A.format, 'n': A.shape[0], **p} if ctx.evaluations % 499 == 0 else None)
+        if not _energy_x_finish(ctx, line, A, p, S, rec, o):
+            judge_other(ctx, A, 'energy', p)
+
+
 def corr_parts(ctx, na, nb, nd=0):
     """parts A, B and D share one batch through the Lean driver"""
     ia = part_a(ctx, na)
@@ -1721,12 +2142,14 @@ def corr_parts(ctx, na, nb, nd=0):
 def run(ctx):
     corr_parts(ctx, ctx.scale(900, 40000), ctx.scale(130, 6500), ctx.scale(300, 13000))
     run_part_e(ctx, ctx.scale(240, 8000))
+    run_part_f(ctx, ctx.scale(45, 2400), ctx.scale(90, 3000))
     part_c(ctx, ctx.scale(240, 13000), ctx.scale(360, 19000))
 
 
 def search(ctx):
     part_c(ctx, 900, 600)
     run_part_e(ctx, 600)
+    run_part_f(ctx, 150, 300)
 
 
 def replay(ctx, data):
